@@ -71,12 +71,12 @@ func tinyScope() scope { // every placement of two nodes / two atoms over the ti
 	return scope{2, 1, 2, 1, 2, 2, 2, "TinyAtoms", "CoreJoins", "TinyLeaves", "{0}", "TinyQuotes", "TinyLists", "TinyAtx",
 		"{TRUE}", "FlatWheel", "FlatAtomWheel", allInvariants}
 }
-func coreFlatScope() scope { // the same shape over the larger core pools, with indentation
-	return scope{2, 1, 2, 1, 2, 2, 2, "CoreAtoms", "CoreJoins", "CoreLeaves", "{0, 2}", "CoreQuotes", "CoreLists", "CoreAtx",
+func coreFlatScope() scope { // the same shape over the larger core pools
+	return scope{2, 1, 2, 1, 2, 2, 2, "CoreAtoms", "CoreJoins", "CoreLeaves", "{0}", "CoreQuotes", "CoreLists", "TinyAtx",
 		"{TRUE}", "FlatWheel", "FlatAtomWheel", allInvariants}
 }
-func tinyDeepScope() scope { // three nodes, nesting depth two, over the tiny pools
-	return scope{2, 1, 2, 2, 2, 3, 2, "TinyAtoms", "CoreJoins", "TinyLeaves", "{0}", "TinyQuotes", "TinyLists", "TinyAtx",
+func tinyDeepScope() scope { // three nodes, nesting depth two, one-atom paragraphs, over the tiny pools
+	return scope{2, 1, 2, 2, 1, 3, 2, "TinyAtoms", "CoreJoins", "TinyLeaves", "{0}", "TinyQuotes", "TinyLists", "TinyAtx",
 		"{TRUE}", "FlatWheel", "FlatAtomWheel", allInvariants}
 }
 
@@ -242,7 +242,7 @@ func construct(in input) string {
 func (p *pipeline) judge(cases []caseRec, owners []input, keyOf func(in input, rel string, w int) string) error {
 	c := p.c
 	batch := c.Pick(20000, 16000)
-	par := c.Pick(4, 6)
+	par := 4
 	vacGot := map[int]string{}
 	for lo := 0; lo < len(cases); lo += batch {
 		hi := lo + batch
@@ -252,7 +252,7 @@ func (p *pipeline) judge(cases []caseRec, owners []input, keyOf func(in input, r
 		if d := os.Getenv("C36_DUMP_CASES"); d != "" {
 			os.WriteFile(fmt.Sprintf("%s/cases-%d.ndjson", d, lo), lib.NDJSON(cases[lo:hi]), 0o644)
 		}
-		bad, err := lib.Judge(c, "JudgeMdDoc", p.dir, "JudgeMdDoc", cases[lo:hi], par, 25*time.Minute)
+		bad, err := lib.Judge(c, "JudgeMdDoc", p.dir, "JudgeMdDoc", cases[lo:hi], par, 40*time.Minute)
 		if err != nil {
 			return err
 		}
@@ -355,18 +355,21 @@ func run(c *lib.Ctx) error {
 	}
 	c.Set("bounds", bounds)
 
-	guard := 25 * time.Minute // only a guard against a hung TLC; sizes are set by the bounds
+	guard := 40 * time.Minute // only a guard against a hung TLC; sizes are set by the bounds
 	exhDocs := make([][]genDoc, len(exhs))
 	simDocs := make([][]genDoc, nSim)
 	errs := make([]error, nSim+len(exhs))
 	exhCount := map[string]any{}
 	var emu sync.Mutex
 	var wg sync.WaitGroup
+	slots := make(chan struct{}, 4) // at most 4 TLC processes at a time
 	for i, e := range exhs {
 		wg.Add(1)
 		go func(i int, e named) {
 			defer wg.Done()
-			r, err := c.TLC("MCMdDoc exhaustive "+e.name, lib.TLCRun{Dir: p.dir, Module: "MCMdDoc", Cfg: "gen.cfg", Workers: c.Pick(4, 3),
+			slots <- struct{}{}
+			defer func() { <-slots }()
+			r, err := c.TLC("MCMdDoc exhaustive "+e.name, lib.TLCRun{Dir: p.dir, Module: "MCMdDoc", Cfg: "gen.cfg", Workers: 2,
 				Timeout: guard, HeapGB: 6, Files: map[string][]byte{"gen.cfg": e.sc.cfg()}})
 			if err != nil {
 				errs[nSim+i] = err
@@ -391,6 +394,8 @@ func run(c *lib.Ctx) error {
 		wg.Add(1)
 		go func(i int) {
 			defer wg.Done()
+			slots <- struct{}{}
+			defer func() { <-slots }()
 			r, err := c.TLC("MCMdDoc random", lib.TLCRun{Dir: p.dir, Module: "MCMdDoc", Cfg: "gen.cfg", Workers: 1,
 				Simulate: fmt.Sprintf("num=%d", perSim), Depth: 150, Seed: c.Seed*1000 + int64(i) + 1,
 				Timeout: guard, HeapGB: 3, Files: map[string][]byte{"gen.cfg": sim.cfg()}})
